@@ -38,6 +38,7 @@ func (fv *FV) execStmt(st *State, s ast.Stmt, label string) *State {
 		return st
 	case *ast.ExprStmt:
 		if c, ok := ast.Unparen(x.X).(*ast.CallExpr); ok {
+			fv.ghostBefore(st, s)
 			fv.evalCall(st, c)
 			if st.guard == "false" {
 				return nil
@@ -47,6 +48,7 @@ func (fv *FV) execStmt(st *State, s ast.Stmt, label string) *State {
 		}
 		fv.fail(x.Pos(), "unsupported expression statement %s", fv.src(x))
 	case *ast.AssignStmt:
+		fv.ghostBefore(st, s)
 		fv.execAssign(st, x)
 		fv.ghostAfter(st, s)
 		return st
@@ -240,12 +242,30 @@ func (fv *FV) execAssign(st *State, x *ast.AssignStmt) {
 			}
 		}
 	}
+	// exchange of two elements of one slice: a[i], a[j] = a[j], a[i]  (ground instance of the exchange lemma)
+	swapBag := false
+	var bagBefore Term
+	if fv.usesBag() && len(x.Lhs) == 2 && preps[0].base.S != "" && preps[0].base.S == preps[1].base.S && preps[0].base.Sort == sSlice && preps[0].idx.S != "" && preps[1].idx.S != "" {
+		a := preps[0].base
+		r0 := fv.indexTerm(st, a, fv.toInt(preps[0].idx))
+		r1 := fv.indexTerm(st, a, fv.toInt(preps[1].idx))
+		if vals[0].S == r1.S && vals[1].S == r0.S {
+			swapBag = true
+			bagBefore = fv.bagTerm(st, a, "0", "(slen "+a.S+")")
+			fv.inSwap = true
+		}
+	}
 	for i, l := range x.Lhs {
 		if len(x.Lhs) > 1 && preps[i].base.S != "" {
 			fv.assignPrepared(st, l, preps[i].base, preps[i].idx, vals[i])
 			continue
 		}
 		fv.assignTo(st, l, vals[i], define)
+	}
+	if swapBag {
+		fv.inSwap = false
+		after := fv.bagTerm(st, preps[0].base, "0", "(slen "+preps[0].base.S+")")
+		fv.define(st, eq(after.S, bagBefore.S))
 	}
 }
 
@@ -343,7 +363,19 @@ func (fv *FV) storeIndex(st *State, base, idx, v Term, y *ast.IndexExpr) {
 	v, _ = fv.coerce(v, Term{Sort: fv.sortOf(et), T: et})
 	E := fv.heapGet(st, key)
 	b := "(sbase " + base.S + ")"
+	var before Term
+	var oldElem string
+	if fv.usesBag() && !fv.inSwap {
+		before = fv.bagTerm(st, base, "0", "(slen "+base.S+")")
+		oldElem = sel(sel(E, b), app("+", "(soff "+base.S+")", idx.S))
+	}
 	fv.heapSet(st, key, sto(E, b, sto(sel(E, b), app("+", "(soff "+base.S+")", idx.S), v.S)))
+	if fv.usesBag() && !fv.inSwap {
+		// ground instance of the point-update lemma for the window of this slice
+		after := fv.bagTerm(st, base, "0", "(slen "+base.S+")")
+		b1 := sto(before.S, oldElem, app("-", sel(before.S, oldElem), "1"))
+		fv.define(st, eq(after.S, sto(b1, v.S, app("+", sel(b1, v.S), "1"))))
+	}
 }
 
 func (fv *FV) storeField(st *State, base Term, name string, v Term, y *ast.SelectorExpr) {
@@ -481,6 +513,9 @@ func (fv *FV) doReturn(st *State, results []Term, pos token.Pos) {
 		if lbl == "" {
 			lbl = fmt.Sprint(i + 1)
 		}
+		if !fv.tagOK(e.Tags) {
+			continue
+		}
 		if e.Assumed {
 			fv.assumptions["postcondition `"+lbl+"` of "+fv.fi.FullName()+" is assumed at call sites and checked by a bounded stand-in only"] = true
 			continue
@@ -543,7 +578,8 @@ func (fv *FV) frameObligations(st *State, k int, pos token.Pos) {
 					excl = append(excl, not(and(eq("r", t.ref), app("<=", t.lo, "x"), app("<", "x", t.hi))))
 				}
 			}
-			phi := fmt.Sprintf("(forall ((r Int) (x Int)) (=> %s (= (select (select %s r) x) (select (select %s r) x))))", and(append([]string{sel(alloc0, "r")}, excl...)...), cur.S, fv.heapGet(fv.entry, key))
+			fv.omarkDecl()
+			phi := fmt.Sprintf("(forall ((r Int) (x Int)) (=> %s (= (select (select %s r) x) (select (select %s r) x))))", and(append([]string{"(omark x)", sel(alloc0, "r")}, excl...)...), cur.S, fv.heapGet(fv.entry, key))
 			fv.oblige(st, fmt.Sprintf("frame[%s].r%d", key, k), phi, "frame: only elements named in `modifies` (or of freshly allocated arrays) change in "+key, nil, pos)
 			continue
 		}
@@ -639,10 +675,13 @@ func (fv *FV) verify() (err error) {
 	}
 	fv.numberLoops(fd.Body)
 	fv.entry = st.clone()
+	fv.emitAxioms(st)
 	if fv.fc != nil {
 		env := fv.postEnv(st, nil)
 		for _, r := range fv.fc.Requires {
-			fv.assume(st, fv.specBool(env, r.Expr))
+			if fv.tagOK(r.Tags) {
+				fv.assume(st, fv.specBool(env, r.Expr))
+			}
 		}
 		fv.entry = st.clone()
 		fv.obligeSat(st, "vacuity.requires", "the preconditions are satisfiable")
@@ -714,6 +753,9 @@ func (fv *FV) checkInvariants(st *State, ls *LoopSpec, ord int, phase string, po
 	}
 	env := fv.localEnv(st, scopePos)
 	for i, inv := range ls.Invariants {
+		if !fv.tagOK(inv.Tags) {
+			continue
+		}
 		lbl := inv.Label
 		if lbl == "" {
 			lbl = fmt.Sprint(i + 1)
@@ -735,7 +777,9 @@ func (fv *FV) assumeInvariants(st *State, ls *LoopSpec, scopePos token.Pos) {
 	}
 	env := fv.localEnv(st, scopePos)
 	for _, inv := range ls.Invariants {
-		fv.assume(st, fv.specBool(env, inv.Expr))
+		if fv.tagOK(inv.Tags) {
+			fv.assume(st, fv.specBool(env, inv.Expr))
+		}
 	}
 }
 
@@ -1265,13 +1309,27 @@ func (fv *FV) applyEffects(pre, head *State, eff *loopEffects) {
 		}
 		ct := callT{t: t, invt: true}
 		scratch := pre.clone()
+		usedNames := map[string]bool{}
+		for _, n := range specIdentNames(t.mod) {
+			usedNames[n] = true
+		}
 		quiet(func() {
 			env := &Env{fv: fv, st: scratch, names: map[string]Term{}, pc: t.pc}
 			for n, e := range t.names {
 				if n == "" || n == "_" {
 					continue
 				}
-				env.names[n] = fv.evalExpr(scratch, e)
+				v, ok := fv.tryEval(scratch, e)
+				if !ok {
+					// refers to variables that exist only inside the body: not loop-invariant
+					if usedNames[n] {
+						ct.invt = false
+					}
+					ty := fv.typeOf(e)
+					so := fv.sortOf(ty)
+					v = Term{S: fv.fresh("unk", so), Sort: so, T: ty}
+				}
+				env.names[n] = v
 			}
 			ct.mts = fv.modTarget(env, t.mod)
 		})
@@ -1305,9 +1363,13 @@ func (fv *FV) applyEffects(pre, head *State, eff *loopEffects) {
 		res = append(res, resolved{key: t.key, ref: ref, lo: lo, hi: hi, ok: true})
 	}
 	for _, ct := range calls {
-		inv := true
-		for _, e := range ct.t.names {
-			if !invariantExpr(e) {
+		inv := ct.invt
+		used := map[string]bool{}
+		for _, n := range specIdentNames(ct.t.mod) {
+			used[n] = true
+		}
+		for n, e := range ct.t.names {
+			if used[n] && !invariantExpr(e) {
 				inv = false
 			}
 		}
@@ -1353,6 +1415,47 @@ func (fv *FV) applyEffects(pre, head *State, eff *loopEffects) {
 	fv.havoc(head, targets)
 }
 
+// tryEval evaluates an expression, reporting failure instead of aborting the function.
+func (fv *FV) tryEval(st *State, e ast.Expr) (t Term, ok bool) {
+	defer func() {
+		if r := recover(); r != nil {
+			if _, isU := r.(unsupported); isU {
+				ok = false
+				return
+			}
+			panic(r)
+		}
+	}()
+	return fv.evalExpr(st, e), true
+}
+
+func specIdentNames(e SExpr) []string {
+	var out []string
+	var walk func(e SExpr)
+	walk = func(e SExpr) {
+		switch x := e.(type) {
+		case *SIdent:
+			out = append(out, x.Name)
+		case *SField:
+			walk(x.X)
+		case *SCall:
+			for _, a := range x.Args {
+				walk(a)
+			}
+		case *SIndex:
+			walk(x.X)
+			walk(x.I)
+		case *SBin:
+			walk(x.L)
+			walk(x.R)
+		case *SUn:
+			walk(x.X)
+		}
+	}
+	walk(e)
+	return out
+}
+
 func specFieldNames(e SExpr) []string {
 	var out []string
 	var walk func(e SExpr)
@@ -1375,4 +1478,42 @@ func specFieldNames(e SExpr) []string {
 	}
 	walk(e)
 	return out
+}
+
+// emitAxioms: `axiom` directives of the package's contracts (and of imported contract files) become global facts;
+// each is listed among the assumptions.
+func (fv *FV) emitAxioms(st *State) {
+	seen := map[*PkgContracts]bool{}
+	var walk func(pc *PkgContracts)
+	walk = func(pc *PkgContracts) {
+		if pc == nil || seen[pc] {
+			return
+		}
+		seen[pc] = true
+		for _, ax := range pc.Axioms {
+			env := &Env{fv: fv, st: st, names: map[string]Term{}, pc: pc}
+			var phi string
+			func() {
+				defer func() {
+					if r := recover(); r != nil {
+						if _, ok := r.(unsupported); ok {
+							phi = ""
+							return
+						}
+						panic(r)
+					}
+				}()
+				phi = fv.specBool(env, ax.Expr)
+			}()
+			if phi != "" {
+				fv.axioms = append(fv.axioms, phi)
+				fv.assumptions["axiom "+ax.Name+" ("+shortPkg(pc.Path)+"): "+strings.TrimSpace(ax.Src)] = true
+			}
+		}
+		for _, imp := range pc.Imports {
+			walk(fv.w.contracts[imp])
+			walk(fv.w.libc[imp])
+		}
+	}
+	walk(fv.pc)
 }
